@@ -675,6 +675,28 @@ func (in *instance) doReq(r Req) (ReqResult, error) {
 	return out, nil
 }
 
+// freshProbe: a new connection gets an answer to OPTIONS (the server survived the case).
+func (in *instance) freshProbe() error {
+	nc, err := net.DialTimeout("tcp", in.addr, watchdog)
+	if err != nil {
+		return fmt.Errorf("dial after the case: %w", err)
+	}
+	defer nc.Close()
+	cl := &client{nc: nc, c: conn.NewConn(bufio.NewReader(nc), nc)}
+	nc.SetWriteDeadline(time.Now().Add(watchdog))
+	if err = cl.c.WriteRequest(&base.Request{Method: base.Options, Header: base.Header{"CSeq": base.HeaderValue{"1"}}}); err != nil {
+		return fmt.Errorf("write after the case: %w", err)
+	}
+	res, err := cl.readResponse()
+	if err != nil {
+		return fmt.Errorf("no answer on a fresh connection after the case: %w", err)
+	}
+	if res.StatusCode != base.StatusOK {
+		return fmt.Errorf("OPTIONS on a fresh connection answered %d", res.StatusCode)
+	}
+	return nil
+}
+
 func (o ReqResult) line(sn snapshot) string {
 	if o.NoConn {
 		return "noconn " + sn.String()
